@@ -45,10 +45,10 @@ Print Assumptions C05_canonical_preserves_cr_lf_tab.
    binary-flagged elements, raw CR in non-canonical modes. *)
 Theorem C05_read_enc_partial : forall l g indent keep_ws nm attrs ch out,
   g <> Indent -> lang_ok l = true ->
-  node_ok l (opts_of_params g indent keep_ws) PRoot None (Elt nm attrs ch) = true ->
+  node_ok l (opts_of_params g indent keep_ws) None None (Elt nm attrs ch) = true ->
   enc_xml l g indent keep_ws [Elt nm attrs ch] = XOk out ->
   exists items,
-    info_node l (opts_of_params g indent keep_ws) PRoot None (Elt nm attrs ch) = Some items /\
+    info_node l (opts_of_params g indent keep_ws) None None (Elt nm attrs ch) = Some items /\
     forall fuel, (node_fuel (Elt nm attrs ch) + 2 <= fuel)%nat -> read_xml fuel out = ROk (doc_of l items).
 Proof. exact read_enc_compact_canonical. Qed.
 Print Assumptions C05_read_enc_partial.
@@ -78,22 +78,20 @@ Theorem C05_indent_text_only_exact : forall l delta ig rb parent s nm attrs ch b
 Proof. exact indent_text_only_exact. Qed.
 Print Assumptions C05_indent_text_only_exact.
 
-(* --- open defects: the faithful model of the CURRENT code refutes these clauses -------------------------- *)
+(* --- CDATA (after the repairs of D8 / D9) ---------------------------------------------------------------- *)
 
-(* D8: the tree the WBXML tree builder makes for a SyncML vCard <Data> with two content items (CDATA node inside
-   a CDATA node) is written as nested CDATA sections, which the reader (and pyexpat, and Expat inside the
-   library) rejects.  Replayed on the C by the check (WBXML 029f536a00 6d6b455a000153 03 "text/x-vcard" 00 0101
-   0000 54 4f 03 "A" 00 03 "B" 00 01 01 01 01 01). *)
-Theorem C05_cdata_never_nested_refuted :
+(* a CDATA node inside a CDATA node would still be written as nested sections, which no reader accepts: the
+   repaired WBXML tree builder never makes such a tree (checked on the C by the tie: no dumped tree has the shape) *)
+Theorem C05_nested_cdata_nodes_rejected :
   exists out, enc_xml syncml11 Compact 0 false [d8_tree] = XOk out /\ read_xml_auto out = RErr.
 Proof. exact d8_nested_cdata_not_well_formed. Qed.
-Print Assumptions C05_cdata_never_nested_refuted.
+Print Assumptions C05_nested_cdata_nodes_rejected.
 
-(* D9: a payload containing the three bytes of a CDATA end ends the section early *)
-Theorem C05_cdata_end_in_text_refuted :
-  exists out, enc_xml syncml11 Canonical 0 true [d9_tree] = XOk out /\ read_xml_auto out = RErr.
-Proof. exact d9_cdata_end_in_text_not_well_formed. Qed.
-Print Assumptions C05_cdata_end_in_text_refuted.
+(* D9 repaired: a payload containing the three bytes of a CDATA end is split over two sections and read back *)
+Theorem C05_cdata_end_in_text_split :
+  exists out d, enc_xml syncml11 Canonical 0 true [d9_tree] = XOk out /\ read_xml_auto out = ROk d.
+Proof. exact d9_cdata_end_in_text_split. Qed.
+Print Assumptions C05_cdata_end_in_text_split.
 
 (* the language of the two witnesses is the SyncML 1.1 entry of the regenerated tables *)
 Theorem C05_witness_language : exists l0, In l0 main_table /\ l_id l0 = 2101 /\ syncml11 = xlang_of l0.
@@ -108,8 +106,8 @@ Print Assumptions C05_witness_language.
    equality modulo blank text for mixed content is corresponded by the check (pyexpat), not proved. *)
 Theorem C07_xml_compact_canonical_partial : forall l i1 i2 nm attrs ch out1 out2,
   lang_ok l = true -> plain_attrs (Elt nm attrs ch) = true ->
-  node_ok l (opts_of_params Compact i1 true) PRoot None (Elt nm attrs ch) = true ->
-  node_ok l (opts_of_params Canonical i2 true) PRoot None (Elt nm attrs ch) = true ->
+  node_ok l (opts_of_params Compact i1 true) None None (Elt nm attrs ch) = true ->
+  node_ok l (opts_of_params Canonical i2 true) None None (Elt nm attrs ch) = true ->
   enc_xml l Compact i1 true [Elt nm attrs ch] = XOk out1 ->
   enc_xml l Canonical i2 true [Elt nm attrs ch] = XOk out2 ->
   forall fuel, (node_fuel (Elt nm attrs ch) + 2 <= fuel)%nat ->
@@ -120,8 +118,8 @@ Print Assumptions C07_xml_compact_canonical_partial.
 (* --- the hypotheses are satisfiable --------------------------------------------------------------------- *)
 
 Example C05_hypotheses_satisfiable :
-  node_ok syncml11 (opts_of_params Compact 0 true) PRoot None ok_tree = true /\
-  node_ok syncml11 (opts_of_params Canonical 0 true) PRoot None ok_tree = true /\
+  node_ok syncml11 (opts_of_params Compact 0 true) None None ok_tree = true /\
+  node_ok syncml11 (opts_of_params Canonical 0 true) None None ok_tree = true /\
   plain_attrs ok_tree = true.
 Proof. exact ok_tree_hypotheses. Qed.
 
